@@ -179,9 +179,10 @@ def run_spelling(c):
     host, port = exp
     pref = family_pref(c['ip'])
     fam_map = {4: 2, 6: 10}
-    if not res:
-        viol.append(_v('C18/no-resolver-query:' + how, 'a valid target led to no resolver query at all', args=args[-4:], out=(r.out + r.err)[-300:], status=r.status))
+    if not res and c['hkind'] == 'name':
+        viol.append(_v('C18/no-resolver-query:' + how, 'a host name led to no resolver query at all', args=args[-4:], out=(r.out + r.err)[-300:], status=r.status))
         return viol, counters
+    # (an IP literal needs no lookup: when there is no query the connects alone are judged against the model)
     for e in res:
         if e['host'] != host or e['port'] != port:
             viol.append(_v('C18/wrong-host-or-port-queried:' + how, 'the resolver was asked for a different host or port than the one named', got=[e['host'], e['port']], want=[host, port], target=t, extra=extra))
@@ -316,7 +317,10 @@ def run_filemix(c):
             viol.append(_v('C18/invalid-port-in-file-exit-zero', 'a targets file with an invalid port ended with status 0', bad=c['bad']))
         return viol, counters
     want = sorted((h, p_) for h, p_, _v6 in expect)
-    if sorted(set(res)) != sorted(set(want)) or len(res) != len(want):
+    is_name = {h: not (v6 or h[0].isdigit()) for h, _p, v6 in expect}
+    must = sorted(x for x in want if is_name[x[0]])          # names have to be looked up; IP literals may be dialled without a lookup
+    res_names = sorted(x for x in res if is_name.get(x[0], True))
+    if res_names != must or not set(res) <= set(want):
         viol.append(_v('C18/file-targets-queried-wrong', 'the set of (host, port) resolver queries differs from the targets listed in the file', got=sorted(res), want=want))
     import re
     labels = sorted(re.findall(r'^\(gen\) target: (\S+)', r.out, re.M))
@@ -337,5 +341,5 @@ def run_case(c):
         if v['key'] not in seen:
             seen.add(v['key'])
             uniq.append(v)
-    return {'violations': uniq, 'counters': counters, 'nontrivial': counters.get('resolver_queries', 0) > 0 or counters.get('invalid_ports', 0) > 0,
+    return {'violations': uniq, 'counters': counters, 'nontrivial': counters.get('resolver_queries', 0) > 0 or counters.get('invalid_ports', 0) > 0 or counters.get('connects_checked', 0) > 0,
             'sample': {'case': c, 'observed': counters}, 'sample_kind': c['kind'] + str(c.get('spelling', '')) + str(c.get('place', ''))}
